@@ -364,7 +364,8 @@ package commands
 //@   props C05
 //@   modifies fresh
 //@   ensures forall_int(i, result0[i], 0 <= i && i < len(result0) ==> result0[i] != nil)
-//@   loop 1 iter prunable && !iter(prunable) ==> defined(parts) && parts[0] == "prunable"
+//@   loop 1 iter defined(parts) ==> (prunable && !iter(prunable) ==> parts[0] == "prunable")
+//@   loop 1 iter !defined(parts) ==> prunable == iter(prunable)
 //@ func github.com/git-lfs/git-lfs/v3/git.GetCommitSummary
 //@   assumed
 //@   props C05
